@@ -26,13 +26,13 @@ SPEC = {
              "into invocations by that token. Non-trivial = a metadata value that differs per invocation and >= 2 invocations."),
     "floors": {"TestGRPCScenario/metadata_per_invocation_value": 0.4, "TestGRPCScenario/metadata_from_earlier_response": 0.25,
                "TestGRPCScenario/per_invocation_metadata_with_concurrent_instances": 0.2, "TestGRPCScenario/multiplicity_gt_1": 0.4,
-               "TestGRPCScenario/rows_wrap_around": 0.3, "TestGRPCScenario/several_scenarios": 0.5,
-               "TestGRPCScenario/several_scenarios_shot": 0.35, "TestGRPCScenario/scenarios_in_mixed_order": 0.25,
-               "TestGRPCScenario/shared_call_per_invocation_metadata": 0.3,
+               "TestGRPCScenario/rows_wrap_around": 0.3, "TestGRPCScenario/several_scenarios": 0.39,
+               "TestGRPCScenario/several_scenarios_shot": 0.28, "TestGRPCScenario/scenarios_in_mixed_order": 0.2,
+               "TestGRPCScenario/shared_call_per_invocation_metadata": 0.23,
                "TestGRPCScenario/shared_call_per_invocation_metadata_one_instance": 0.05,
-               "TestGRPCJSON/metadata_key_with_capitals": 0.5, "TestGRPCJSON/metadata_marker_key_with_capitals": 0.35,
+               "TestGRPCJSON/metadata_key_with_capitals": 0.36, "TestGRPCJSON/metadata_marker_key_with_capitals": 0.26,
                "TestGRPCJSON/metadata": 0.5, "TestGRPCJSON/invalid_mixed_with_valid": 0.3, "TestGRPCJSON/stalled_call": 0.1,
-               "TestGRPCJSON/shared_client": 0.3, "TestGRPCJSON/instances_ge_2": 0.4, "TestGRPCJSON/invalid_unknown_method": 0.2,
+               "TestGRPCJSON/shared_client": 0.22, "TestGRPCJSON/instances_ge_2": 0.4, "TestGRPCJSON/invalid_unknown_method": 0.2,
                "TestGRPCJSON/invalid_wrong_type": 0.2, "TestGRPCJSON/invalid_unknown_field": 0.2, "TestGRPCJSON/file_longer_than_read_ahead": 0.08},
     "manifest": {
         "technique": "differential property testing (rapid): gun's reflection/dynamic-message path vs protojson into the generated request types, observed at a recording gRPC server",
